@@ -672,6 +672,8 @@ def gen_c12(rng: random.Random, tier: str) -> Plan:
     cfg["faults"] = False
     cfg["batches"] = [rng.choice([3, 5]), 1]
     cfg["check_subset"] = 2
+    if rng.random() < 0.3:
+        cfg["dtype"] = "float32"
     if rng.random() < 0.4:
         r0 = recipes.gen_rg_circuit(rng, monotonic=True, normalized=True,
                                     max_vars=6 if rng.random() < 0.25 else 5,
